@@ -66,7 +66,7 @@ def extra_fields(names):
     return d
 
 
-def gen_spec(rng, kinds=("grid", "cvt", "cvt_brute", "cvt_chunk", "sliding"), cma=False, dtypes=("f", "d"), max_cells=64):
+def gen_spec(rng, kinds=("grid", "cvt", "cvt_brute", "cvt_chunk", "sliding"), cma=False, dtypes=("f", "d"), max_cells=64, allow_odtype=False):
     kind = rng.choice(kinds)
     spec = {"kind": kind, "dtype": rng.choice(dtypes), "sol_dim": rng.randint(1, 3), "extras": rng.choice(EXTRA_LAYOUTS),
             "lr": None, "tmin": None, "offset": rng.choice([0.0, 0.0, -2.0, 1.5, -100.0])}
@@ -96,6 +96,9 @@ def gen_spec(rng, kinds=("grid", "cvt", "cvt_brute", "cvt_chunk", "sliding"), cm
         spec["lr"] = rng.choice([0.0, 0.25, 0.5, 0.75, 1.0, 0.1, 0.3])
         spec["tmin"] = rng.choice([-4.0, 0.0, 1.5, -100.0])
     spec["seed"] = rng.randrange(1 << 30)
+    if allow_odtype and kind != "sliding" and rng.random() < 0.25:
+        # the dict form of `dtype`: the objective (and with it the threshold) in the OTHER float type than solution / measures
+        spec["odtype"] = "d" if spec["dtype"] == "f" else "f"
     if rng.random() < 0.3:
         spec["reuse"] = rng.randrange(1, 1 << 30)      # see reuse_buffers
     if rng.random() < 0.35:
@@ -860,3 +863,100 @@ def gen_history_live(rng, spec, nops, max_batch, obj_gen, tie_rate=0.3, clear_ra
             archive.add(**batch_arrays(spec, op[1]))
         ops.append(op)
     return ops, stats
+
+
+# ---------------------------------------------------------------------------------------------
+# the dict form of `dtype`: objective (and threshold) in one float type, solution / measures in the other
+def dict_dtype_stream(rep, rng, n, focus):
+    """focus 'agree' (C02): add([x]) and add_single(x) give the same feedback and contents, and the stored objective is the submitted one
+    rounded to the OBJECTIVE dtype; 'threshold' (C05): the threshold field has the objective's dtype and follows the CMA-MAE rule
+    evaluated in that dtype; 'reject' (C11): a measure that is finite in the wider type but overflows the MEASURES dtype is rejected by
+    add / add_single and leaves the archive as it was.  A message (and a replayable case) or None."""
+    from ribs.archives import CVTArchive, GridArchive
+    if focus == "threshold":
+        # the same batch once with a float32 objective array and once as a list of the very same (float32-representable) numbers, into a
+        # float64 CMA-MAE archive: several candidates for one cell whose float32 running sum is inexact -- the thresholds must not depend
+        # on the container the caller used
+        for _ in range(max(4, n // 4)):
+            lr = rng.choice([0.5, 0.25, 1.0, 0.75])
+            vals = rng.choice([[16777216.0, 1.0, 1.0, 1.0], [33554432.0, 3.0, 1.0], [1.0, 16777216.0, 1.0, 1.0, 2.0], [3.0e38, 3.0e38], [8388608.0, 0.5, 0.5, 0.5]])
+            vals = [float(np.float32(v)) for v in vals]      # every value a float32 value
+            rng.shuffle(vals)
+            res = []
+            for cont in ("f32", "list", "f64"):
+                a = GridArchive(solution_dim=1, dims=[3], ranges=[(0.0, 1.0)], dtype=np.float64, learning_rate=lr, threshold_min=-1.0)
+                o = np.array(vals, dtype=np.float32) if cont == "f32" else list(vals) if cont == "list" else np.array(vals, dtype=np.float64)
+                info = a.add(np.zeros((len(vals), 1)), o, np.full((len(vals), 1), 0.5))
+                res.append(([int(x) for x in info["status"]], [float(x) for x in info["value"]], [float(x) for x in a.data("threshold")], [float(x) for x in a.data("objective")]))
+            rep.count("container_independent_batches")
+            if res[0] != res[1] or res[1] != res[2]:
+                return ("a float64 CMA-MAE archive (learning_rate %r) given the objectives %r in one batch for one cell: as a float32 array -> thresholds %s, "
+                        "as a list -> %s, as a float64 array -> %s" % (lr, vals, res[0][2], res[1][2], res[2][2]),
+                        {"learning_rate": lr, "threshold_min": -1.0, "objectives": vals, "results": {"float32 array": res[0], "list": res[1], "float64 array": res[2]}})
+    for _ in range(n):
+        od, md = rng.choice([(np.float64, np.float32), (np.float32, np.float64)])
+        lr, tmin = rng.choice([(None, None), (0.5, -4.0), (1.0, -1.0), (0.25, 0.0)])
+        kw = {} if lr is None else {"learning_rate": lr, "threshold_min": tmin}
+        dt = {"solution": md, "objective": od, "measures": md}
+
+        def mk():
+            if rng_kind == "grid":
+                return GridArchive(solution_dim=1, dims=[4], ranges=[(0.0, 1.0)], dtype=dt, **kw)
+            return CVTArchive(solution_dim=1, cells=4, ranges=[(0.0, 1.0)], dtype=dt, custom_centroids=np.array([[0.1], [0.4], [0.6], [0.9]]), **kw)
+        rng_kind = rng.choice(["grid", "cvt"])
+        a, b = mk(), mk()
+        case = {"objective_dtype": np.dtype(od).name, "measures_dtype": np.dtype(md).name, "kind": rng_kind, "learning_rate": lr, "threshold_min": tmin, "adds": []}
+        rep.count("dict_dtype_archives")
+        for step in range(rng.randint(2, 6)):
+            obj = rng.choice([0.1, 0.3, 1.0 / 3.0, 2.5, 0.1 + 1e-9, 16777217.0, -0.7, 1e-9]) + rng.choice([0.0, 0.0, 1.0])
+            mea = rng.choice([0.05, 0.3, 0.55, 0.8, 0.3 + 1e-9])
+            case["adds"].append([obj, mea])
+            if focus == "reject" and rng.random() < 0.5:
+                huge = rng.choice([1e39, -1e39, 3.5e38]) if md == np.float32 else None
+                if huge is not None:
+                    before = (len(a), [float(x) for x in a.data("objective")], [float(x) for x in a.data("measures").ravel()])
+                    for entry in ("add", "add_single"):
+                        try:
+                            if entry == "add":
+                                a.add([[0.0]], [obj], [[huge]])
+                            else:
+                                a.add_single([0.0], obj, [huge])
+                            err = None
+                        except Exception as e:  # noqa
+                            err = e
+                        after = (len(a), [float(x) for x in a.data("objective")], [float(x) for x in a.data("measures").ravel()])
+                        if err is None or not isinstance(err, ValueError) or after != before:
+                            return ("%s with a measure (%r) that overflows the archive's measures dtype (float32; objective dtype float64) %s" % (
+                                entry, huge, "was accepted" if err is None else ("raised %r" % (err,) if not isinstance(err, ValueError) else "raised but changed the archive")),
+                                dict(case, bad={"entry": entry, "measure": huge, "objective": obj}))
+            ia = a.add([[float(step)]], [obj], [[mea]])
+            ib = b.add_single([float(step)], obj, [mea])
+            fa = [int(ia["status"][0]), float(ia["value"][0])]
+            fb = [int(ib["status"]), float(ib["value"])]
+            if focus == "agree":
+                v_ok = fa[1] == fb[1] or abs(fa[1] - fb[1]) <= 4 * float(np.spacing(od(max(abs(fa[1]), abs(fb[1]), abs(obj)))))
+                if fa[0] != fb[0] or not v_ok or np.asarray(ia["value"]).dtype != np.asarray(ib["value"]).dtype:
+                    return ("add([x]) reports %s (%s) and add_single(x) reports %s (%s) for objective %r, measure %r" % (
+                        fa, np.asarray(ia["value"]).dtype, fb, np.asarray(ib["value"]).dtype, obj, mea), case)
+                da, db = a.data(), b.data()
+                # (thresholds: the batch rule and the single-step rule round differently, see C05; a few units in the last place)
+                th_ok = da["threshold"].shape == db["threshold"].shape and all(
+                    (not np.isfinite(x) and x == y) or abs(float(x) - float(y)) <= 4 * float(np.spacing(od(max(abs(float(x)), abs(float(y))))))
+                    for x, y in zip(da["threshold"], db["threshold"]))
+                if [list(map(float, da[f].ravel())) for f in ("objective", "measures")] != [list(map(float, db[f].ravel())) for f in ("objective", "measures")] or not th_ok:
+                    return ("after the same candidates, the archive filled by add([x]) and the one filled by add_single(x) differ", case)
+                if fa[0] == 2 and float(od(obj)) not in [float(x) for x in da["objective"]]:
+                    return ("a new elite's stored objective is not the submitted objective %r rounded to the objective dtype %s (stored: %s)" % (
+                        obj, np.dtype(od).name, [float(x) for x in da["objective"]]), case)
+            if focus == "threshold":
+                th = a.data("threshold")
+                if th.dtype != od or a.dtypes["threshold"] != od:
+                    return ("the threshold field has dtype %s although the objective dtype is %s (measures: %s)" % (th.dtype, np.dtype(od).name, np.dtype(md).name), case)
+                if lr == 1.0 and fa[0] != 0:
+                    cell = int(a.index_of_single([mea]))
+                    d = a.data()
+                    k = [int(i) for i in d["index"]].index(cell)
+                    if float(d["threshold"][k]) != float(od(obj)):
+                        return ("learning_rate 1: the threshold of the cell (%r) is not the accepted objective %r in the objective dtype %s" % (
+                            float(d["threshold"][k]), float(od(obj)), np.dtype(od).name), case)
+    return None
